@@ -248,7 +248,7 @@ func runConcurrent(t *verifsim.Tape, cfg engine.Config) *engine.Outcome {
 			for _, inv := range x.invoked {
 				if x.m.Payload != nil {
 					if vs := gen.Validate(d, inv.got, x.m.Payload, ""); len(vs) > 0 && !formatOnly(vs) {
-						if rc := reachedClass(d, x.m, vs[0]); rc == "validation-error-dropped-by-required-cookie" {
+						if rc := reachedClass(d, x.m, vs[0]); rc == "validation-error-dropped-by-required-cookie" || rc == exclMaxDefect {
 							o.Features["known_defect_class_in_the_way"]++
 						} else {
 							o.Violate("leak_invalid_payload_reached_service", "leak_reached:"+rc, "%s: the service ran on %s which violates %v (own payload %s)", where, gen.Show(inv.got), vs, gen.Show(x.payload))
